@@ -298,6 +298,9 @@ func c16Job(shard, nshards int, tier string) Job {
 					events []c15Event
 					// staleClause: deviations after this start are reported under this clause (a named, known kind of staleness)
 					staleClause string
+					// notStarted: the cluster under test is synced by a fresh manager whose pod informer has not been started (a
+					// daemon start while no policy exists)
+					notStarted bool
 				}
 				starts := []start{{name: "empty kernel"}}
 				relabel := [][]string{{"web", "db", "cli2"}, {"web", "db-plain", "cli2"}}
@@ -354,6 +357,9 @@ func c16Job(shard, nshards int, tier string) Job {
 							events: []c15Event{{Kind: "policy-update", NP: menu[pn], OldP: menu[vn]}}})
 					}
 				}
+				if len(pl) == 0 {
+					starts = append(starts, start{name: "restart after the policies in-podsel, in-denyall were deleted while galaxy was down", pods: ps, pols: []string{"in-podsel", "in-denyall"}, notStarted: true})
+				}
 				for _, st := range starts {
 					k := nfsim.New()
 					w := newPolicyWorld(k)
@@ -367,6 +373,9 @@ func c16Job(shard, nshards int, tier string) Job {
 							applyEvent(w, &cur, ev)
 						}
 					} else {
+						if st.notStarted {
+							w.newManagerNotStarted(c)
+						}
 						w.setCluster(c)
 						w.pm.Run()
 					}
